@@ -189,6 +189,35 @@ class KernelEval:
         s.I = Interp(repo)
         s.cache = {}
 
+    def block_constants(s, rel):
+        """module-level integer constants >= 1024 that the functions of the module read (block / chunk sizes of streaming implementations)."""
+        mod = s.repo.mods.get(rel)
+        out = {}
+        if mod is None: return out
+        for st_ in mod.body:
+            tg = st_.targets[0] if isinstance(st_, ast.Assign) and len(st_.targets) == 1 else st_.target if isinstance(st_, ast.AnnAssign) else None
+            if isinstance(tg, ast.Name) and getattr(st_, "value", None) is not None:
+                try: v_ = eval(compile(ast.Expression(st_.value), "<const>", "eval"), {"__builtins__": {}}, {})
+                except Exception: continue
+                if isinstance(v_, int) and not isinstance(v_, bool) and v_ >= 1024: out[tg.id] = v_
+        used = {n.id for f in ast.walk(mod) if isinstance(f, ast.FunctionDef) for n in ast.walk(f) if isinstance(n, ast.Name) and isinstance(n.ctx, ast.Load)}
+        return {k: v for k, v in out.items() if k in used}
+
+    def evaluate_with_blocks(s, fam, mode, backend, name, size=2):
+        """the kernel interpreted with the module-level block size `name` made small, so that several blocks occur in a segment of a few samples."""
+        key = kernel_key(fam, mode, backend); rel = key.split("::")[0]
+        ck = (key, "block", name, size)
+        if ck in s.cache: return s.cache[ck]
+        I2 = Interp(s.repo)
+        I2.module_globals(rel)[name] = X.const(size)
+        from . import loops as _loops
+        _loops.STRICT_RECURRENCES[0] = True
+        try: r = I2.call_key(key, kernel_args(fam, mode), {}, St())
+        except Unknown as ex: r = Opaque(f"interpreter: {ex}")
+        finally: _loops.STRICT_RECURRENCES[0] = False
+        s.cache[ck] = r
+        return r
+
     def evaluate(s, fam, mode, backend, chans=("x1", "x2"), chunk=None, p1=None):
         key = kernel_key(fam, mode, backend)
         ck = (key, chans, chunk, p1)
@@ -263,6 +292,7 @@ def _check_kernel(ctx, KE, fam, mode, backend, outputs=OUT, rule="R3-statistics"
     kmax = cond_constants(val0) + 1
     worst = HOLDS
     # the detrend basis comes from _build_Q(L, order), order in {1,2}: it has 2 or 3 columns
+    blocks = KE.block_constants(key.split("::")[0])
     chunked = None
     if has_chunk_param(node):
         # the NumPy kernels process the segments in chunks of _chunk: re-evaluate with a chunk size of 2 so that the
@@ -319,6 +349,30 @@ def _check_kernel(ctx, KE, fam, mode, backend, outputs=OUT, rule="R3-statistics"
             status, detail, lhs, rhs = decide(oi, name, width_variants())
         elif status == UNKNOWN and fam == "poly" and "agree numerically" not in detail:
             status, detail, lhs, rhs = decide(oi, name, width_variants(reeval=True))
+        if status != VIOLATED and blocks:
+            # streaming in blocks of a module-level size: interpreted again with blocks of 2 samples and compared numerically for segments of 3 and 5 samples
+            for bname in blocks:
+                vb = KE.evaluate_with_blocks(fam, mode, backend, bname)
+                for k_ in (1, 2):
+                    leaf, und = leaf_for_K(subst_val(vb, {"Q.shape1": X.const(2)}) if fam == "poly" else vb, k_)
+                    got = leaf[oi] if isinstance(leaf, tuple) and len(leaf) == 5 and not und else None
+                    gx = to_x(got) if got is not None and not is_opaque(got) else None
+                    if gx is None:
+                        if status == HOLDS: status, detail = UNKNOWN, f"blocks of 2 samples ({bname}=2): output not recognised"
+                        continue
+                    want = ref0[regime_of(k_)][oi]
+                    if fam == "poly": want = want.subst({"Q.shape1": X.const(2)})
+                    for Lnum in (3.0, 5.0):
+                        def prep(env, Lnum=Lnum):
+                            prepare_env(env); env.fixed.update({"L": Lnum, "Q.shape0": Lnum})
+                        stt, why = compare(gx, want, prepare=prep, seed=ctx.seed)
+                        if stt == VIOLATED:
+                            status = VIOLATED; lhs, rhs = gx, want
+                            detail = (f"{name} for K={k_} segments of {int(Lnum)} samples processed in blocks of 2 ({bname} made small) differs from the windowed-DFT definition: "
+                                      f"segments longer than {bname}={blocks[bname]} samples are transformed wrongly")
+                            break
+                    if status == VIOLATED: break
+                if status == VIOLATED: break
         if status != VIOLATED and chunked is not None:
             k = kmax
 
